@@ -35,7 +35,7 @@ LabelUpTo(d, col, idless, i) ==
   ELSE LET prev == LabelUpTo(d, col, idless, i - 1)
            me == IF i \in idless THEN 0
                  ELSE LET same == {j \in 1..(i-1) : /\ prev[j] # 0 /\ col[j] = col[i]
-                                                    /\ Arity(d, j) = Arity(d, i)
+                                                    /\ ArityD(d, j) = ArityD(d, i)
                                                     /\ (d[i][1] # 0 => prev[d[j][1]] = prev[d[i][1]])
                                                     /\ (d[i][2] # 0 => prev[d[j][2]] = prev[d[i][2]])}
                       IN IF same = {} THEN i ELSE CHOOSE j \in same : \A j2 \in same : j <= j2
@@ -59,7 +59,7 @@ Init ==
   /\ md \in (IF algo = "vpre" THEN MaxDepths ELSE {NONE})
   /\ stack = IF algo \in {"post", "rtl"} THEN <<Item(N, "Root")>>
              ELSE IF algo = "pre" THEN <<N>>
-             ELSE <<[VItem(N, 0) EXCEPT !.complete = (Arity(dag, N) = 0)]>>
+             ELSE <<[VItem(N, 0) EXCEPT !.complete = (ArityD(dag, N) = 0)]>>
   /\ index = 0
   /\ seen = [i \in 1..N |-> NONE]
   /\ out = <<>>
@@ -68,8 +68,8 @@ Top == stack[Len(stack)]
 Rest == SubSeq(stack, 1, Len(stack) - 1)
 Sw == algo = "rtl"
 \* children as SwapChildren presents them
-LeftOf(e)  == IF Sw /\ Arity(dag, e) = 2 THEN dag[e][2] ELSE dag[e][1]
-RightOf(e) == IF Sw /\ Arity(dag, e) = 2 THEN dag[e][1] ELSE dag[e][2]
+LeftOf(e)  == IF Sw /\ ArityD(dag, e) = 2 THEN dag[e][2] ELSE dag[e][1]
+RightOf(e) == IF Sw /\ ArityD(dag, e) = 2 THEN dag[e][1] ELSE dag[e][2]
 SeenBefore(e) == IF sid[e] = 0 THEN NONE ELSE seen[sid[e]]
 
 \* -- PostOrderIter::next, unprocessed branch: the seven arms
@@ -106,8 +106,8 @@ PostProcessed ==
                       [] cur.prev = "ParentRight" -> [rest EXCEPT ![n].ri = ci]
                       [] cur.prev = "SiblingLeft" -> [rest EXCEPT ![n - 1].li = ci]
          \* unswap
-         oli == IF Sw /\ Arity(dag, cur.e) = 2 THEN cur.ri ELSE cur.li
-         ori == IF Sw /\ Arity(dag, cur.e) = 2 THEN cur.li ELSE cur.ri
+         oli == IF Sw /\ ArityD(dag, cur.e) = 2 THEN cur.ri ELSE cur.li
+         ori == IF Sw /\ ArityD(dag, cur.e) = 2 THEN cur.li ELSE cur.ri
      IN /\ stack' = patched
         /\ seen' = IF already \/ sid[cur.e] = 0 THEN seen ELSE [seen EXCEPT ![sid[cur.e]] = index]
         /\ index' = IF already THEN index ELSE index + 1
@@ -133,9 +133,9 @@ VpreStep ==
          first == top0.ny = 0
          skip == first /\ SeenBefore(top0.e) # NONE
          top == IF first THEN [top0 EXCEPT !.idx = index] ELSE top0
-         a == Arity(dag, top.e)
+         a == ArityD(dag, top.e)
          go == md = NONE \/ top.depth < md
-         child(c) == [VItem(c, top.depth + 1) EXCEPT !.complete = (Arity(dag, c) = 0)]
+         child(c) == [VItem(c, top.depth + 1) EXCEPT !.complete = (ArityD(dag, c) = 0)]
          pushes == IF top.ny = 0 /\ a > 0
                    THEN <<[top EXCEPT !.ny = 1, !.complete = (a = 1)]>> \o (IF go THEN <<child(dag[top.e][1])>> ELSE <<>>)
                    ELSE IF top.ny = 1 /\ a = 2
@@ -174,12 +174,12 @@ Clauses ==
   Done => CASE algo = "post" -> PostOrderClauses(dag, sid, out)
             [] algo = "rtl"  -> /\ PostOrderClauses(dag, sid, out)
                                 /\ \* mirror image: rtl of d = post of the mirrored DAG
-                                   LET mir == [i \in 1..N |-> IF Arity(dag, i) = 2 THEN <<dag[i][2], dag[i][1]>> ELSE dag[i]]
+                                   LET mir == [i \in 1..N |-> IF ArityD(dag, i) = 2 THEN <<dag[i][2], dag[i][1]>> ELSE dag[i]]
                                        po == PO(mir, sid, FALSE)
                                    IN /\ Len(po) = Len(out)
                                       /\ \A k \in 1..Len(out) :
                                            /\ out[k][1] = po[k][1] /\ out[k][2] = po[k][2]
-                                           /\ IF Arity(dag, out[k][1]) = 2
+                                           /\ IF ArityD(dag, out[k][1]) = 2
                                               THEN out[k][3] = po[k][4] /\ out[k][4] = po[k][3]
                                               ELSE out[k][3] = po[k][3] /\ out[k][4] = po[k][4]
             [] algo = "pre"  -> \* same classes as post-order, parents before children
